@@ -567,6 +567,12 @@ func (g *c15Gen) needle(value func(*c15Msg) string, pairs bool) string {
 	}
 	tok := ascii[tv%len(ascii)]
 	out := tok
+	if on, ok := c15OverlapNeedle[strings.ToLower(tok)]; ok && variant%2 == 0 {
+		if variant%4 == 0 {
+			on = strings.ToUpper(on)
+		}
+		return on
+	}
 	switch variant % 10 {
 	case 0, 1:
 	case 2:
